@@ -188,3 +188,65 @@ class SendErrorSites(_AstTask):
 REG.add_task(SendErrorSites('_sendError-call-sites', ('C08', 'C17'), 'tlslite/tlsrecordlayer.py:TLSRecordLayer._sendError',
                             doc='whole-file scan of tlsconnection.py / tlsrecordlayer.py: every _sendError call passes an AlertDescription '
                                 'constant as the description and is driven by `for result in ...`'))
+
+
+# ---------------------------------------------------------------------------------------------------------------------
+# two AST rules for parsers of peer data (found missing by seeded changes):
+#  * `bytearray(K - len(x))` (left padding to a fixed size) raises ValueError for a negative count: it must sit under a test
+#    `len(x) < K` (or <=) -- SSLv2-format ClientHello challenge;
+#  * calls into the third-party `ecdsa` package that parse peer-supplied key material raise that package's own exception
+#    classes (UnknownCurveError derives from Exception directly): they must sit in a try whose handler catches Exception.
+class ParserAstRules(_AstTask):
+    def run(self, reg, meta):
+        n_pad = n_ecdsa = 0
+        for rel in ('tlslite/messages.py', 'tlslite/x509.py', 'tlslite/extensions.py', 'tlslite/utils/keyfactory.py'):
+            path = _os.path.join(_source.REPO, rel)
+            tree = _source.module_ast(path)
+            pm = _parent_map(tree)
+
+            def ancestors(n):
+                while id(n) in pm:
+                    n = pm[id(n)]
+                    yield n
+            for n in _ast.walk(tree):
+                if not isinstance(n, _ast.Call):
+                    continue
+                fname = n.func.id if isinstance(n.func, _ast.Name) else (n.func.attr if isinstance(n.func, _ast.Attribute) else None)
+                if fname == 'bytearray' and len(n.args) == 1:
+                    a = n.args[0]
+                    if isinstance(a, _ast.Name):
+                        # a local assigned `K - len(x)` in the enclosing function
+                        fn = next((x for x in ancestors(n) if isinstance(x, _ast.FunctionDef)), None)
+                        defs = [x.value for x in _ast.walk(fn) if isinstance(x, _ast.Assign)
+                                and any(isinstance(t, _ast.Name) and t.id == a.id for t in x.targets)] if fn else []
+                        a = defs[0] if len(defs) == 1 else a
+                    if isinstance(a, _ast.BinOp) and isinstance(a.op, _ast.Sub) and isinstance(a.right, _ast.Call) \
+                            and isinstance(a.right.func, _ast.Name) and a.right.func.id == 'len':
+                        n_pad += 1
+                        want_len, want_k = _ast.unparse(a.right), _ast.unparse(a.left)
+                        guarded = False
+                        for anc in ancestors(n):
+                            if isinstance(anc, _ast.If) and isinstance(anc.test, _ast.Compare) and len(anc.test.ops) == 1 \
+                                    and isinstance(anc.test.ops[0], (_ast.Lt, _ast.LtE)) \
+                                    and _ast.unparse(anc.test.left) == want_len and _ast.unparse(anc.test.comparators[0]) == want_k:
+                                guarded = True
+                        self.holds('%s:L%d:padding-count-%s-is-guarded-by-a-length-test' % (rel.split('/')[-1], n.lineno, _ast.unparse(a).replace(' ', '')),
+                                   'ast', guarded, reason='bytearray(%s) without an enclosing `if %s < %s`' % (_ast.unparse(a), want_len, want_k), where=n.lineno)
+                if rel.endswith('x509.py') and fname in ('from_der', 'from_string', 'from_pem', 'from_public_key_recovery'):
+                    n_ecdsa += 1
+                    ok = False
+                    for anc in ancestors(n):
+                        if isinstance(anc, _ast.Try):
+                            for h in anc.handlers:
+                                if h.type is None or (isinstance(h.type, _ast.Name) and h.type.id in ('Exception', 'BaseException')):
+                                    ok = True
+                    self.holds('x509.py:L%d:third-party-key-parser-%s-is-wrapped-by-a-catch-all-handler' % (n.lineno, fname), 'ast', ok,
+                               reason='python-ecdsa raises its own exception classes (e.g. UnknownCurveError, a direct subclass of Exception)',
+                               where=n.lineno)
+        self.holds('padding-sites-found', 'ast', n_pad >= 1, reason='%d sites' % n_pad)
+        self.holds('third-party-key-parser-sites-found', 'ast', n_ecdsa >= 1, reason='%d sites' % n_ecdsa)
+
+
+REG.add_task(ParserAstRules('parser-ast-rules', ('C08',), 'tlslite/messages.py:ClientHello.parse',
+                            doc='left-padding by bytearray(K - len(x)) is guarded by a length test; third-party key parsers in x509.py run under a '
+                                'catch-all handler that maps to SyntaxError'))
